@@ -18,17 +18,24 @@ import collections
 import itertools
 import sys
 
-from harness.common import enc, kids, tag, is_err
+import subprocess
+
+from harness.common import enc, kids, tag, is_err, parse
 
 PROP = 'C07'
-GENERATORS = []
+GENERATORS = ['gen_hub']
 TRUSTED = [
-    'coq/C07/Model.v is a hand-written model of Hub.broadcast / delay_callbacks / ignore_callbacks / subscribe / unsubscribe / '
-    'unsubscribe_all / _find_handlers and of HubCallbackContainer as an insertion-ordered dict; tied to the code by the '
-    'correspondence of delivery logs and final hub state on the explored scripts only',
-    'handlers are modelled as scripts over the same action alphabet (the harness interprets them against the real hub)',
+    'tools/gen/gen_hub.py (fail-closed ast -> Gallina translator, regenerates coq/gen/Gen_hub.v from hub.py / hub_callback_container.py '
+    'on every run) and its fixed prelude: dict / WeakKeyDictionary / Counter as insertion-ordered association lists, max() = first maximal, '
+    'sorted() stable, contextlib.contextmanager (yield = the with-body, finally runs on every exit), a generator whose only yield is '
+    'in its last loop = the eager list; its output is run against the live Hub on every case (stream "translated")',
+    'HubCallbackContainer._wrap / __getitem__ / is_bound_method (weak references) are not translated: pinned by text hash, read as '
+    '"what is stored is what is given back while the objects live"',
+    'coq/C07/Model.v: the script interpreter (gstep/grun: runs scripts, logs block marks and handler entries/returns) is hand-written; the hub '
+    'operations inside it are the translated functions; the hand-written hub model (step/run) is proved equal to it (Property.gen_refines)',
+    'handlers are modelled as scripts over the same action alphabet (the harness interprets them against the real hub); a handler object is '
+    '(listener, script), script 0 = no handler given (subscriber.notify)',
     'the model follows the hub after the fix commits for F-C07a (depth counter) and F-C07b (queue detached before delivery)',
-    'CPython dict / WeakKeyDictionary insertion order, sorted() stability, contextlib.contextmanager',
 ]
 ASSUMPTIONS = [
     'handlers do not raise: exceptions are raised only by the code inside a delay/ignore block at the top level of the script '
@@ -385,10 +392,32 @@ def enc_action(a):
     return (7, [])
 
 
-def enc_case(case):
-    return enc((1, [FUEL, (0, list(case['parents'])),
+def enc_case(case, entry=1):
+    """entry 1 = the hand-written model (Model.v: run), entry 3 = the interpreter over the translated hub methods (gen/Gen_hub.v: grun)"""
+    return enc((entry, [FUEL, (0, list(case['parents'])),
                     (0, [(0, [enc_action(a) for a in h]) for h in case['handlers']]),
                     (0, [enc_action(a) for a in case['script']])]))
+
+
+def model_raw(R, lines, chunk=200000):
+    """as R.model, but the answers are returned as text (parsing is the expensive part and equal texts need not be parsed twice)"""
+    if not R.model_available:
+        raise RuntimeError('model driver not built: ' + R.driver)
+    out = []
+    for i in range(0, len(lines), chunk):
+        part = lines[i:i + chunk]
+        R.model_calls += len(part)
+        p = subprocess.run(['bash', '-c', 'ulimit -s unlimited 2>/dev/null; exec "$0"', R.driver],
+                           input=('\n'.join(part) + '\n').encode(), stdout=subprocess.PIPE, stderr=subprocess.PIPE)
+        if p.returncode != 0:
+            raise RuntimeError('model driver failed: ' + p.stderr.decode()[:500])
+        res = p.stdout.decode().split('\n')
+        if res and res[-1] == '':
+            res.pop()
+        if len(res) != len(part):
+            raise RuntimeError('model driver returned %d lines for %d cases' % (len(res), len(part)))
+        out.extend(res)
+    return out
 
 
 def dec_model(t):
@@ -652,8 +681,11 @@ def first_diff(a, b):
     return min(len(a), len(b))
 
 
-def judge(case, real, ref, model):
-    """-> list of (kind, detail)"""
+GEN_STATS = collections.Counter()
+
+
+def judge(case, real, ref, model, gmodel=None):
+    """-> list of (kind, detail); model = hand-written model, gmodel = the translated hub methods run by the extracted interpreter"""
     out = []
     if ref[0] == 'diverged':
         return out
@@ -680,6 +712,20 @@ def judge(case, real, ref, model):
                          impl_log=real[2], model_log=model[2], impl_state=real[3], model_state=model[3])
             else:
                 d.update(impl=real[0], model=model[0])
+            out.append(('correspondence', d))
+    if gmodel is not None and ref[0] != 'diverged':
+        GEN_STATS['cases'] += 1
+        if gmodel[0] == 'bad':
+            out.append(('correspondence', {'why': 'translated hub (gen/Gen_hub.v): output not understood', 'model': repr(gmodel[1])[:300]}))
+        elif gmodel[0] != real[0] or (gmodel[0] == 'ok' and gmodel[1:] != tuple(real[1:])):
+            d = {'why': 'translated hub (gen/Gen_hub.v) and implementation differ'}
+            if gmodel[0] == 'ok' and real[0] == 'ok':
+                d.update(status={'impl': real[1], 'translated (2 = KeyError/ValueError inside the hub)': gmodel[1]},
+                         first_log_difference=first_diff(real[2], gmodel[2]),
+                         impl_log=real[2], translated_log=gmodel[2], impl_state=real[3], translated_state=gmodel[3])
+            else:
+                d.update(impl=real[0], translated=gmodel[0])
+            GEN_STATS['disagreements'] += 1
             out.append(('correspondence', d))
     return out
 
@@ -733,7 +779,7 @@ def case_from_json(j):
 
 
 def why_class(why):
-    for k in ('recursed without bound', 'while', 'does not match', 'twice', 'not idle', 'exception status', 'delivery log differs'):
+    for k in ('translated hub', 'recursed without bound', 'while', 'does not match', 'twice', 'not idle', 'exception status', 'delivery log differs'):
         if k in why:
             return k
     return why[:30]
@@ -785,34 +831,49 @@ FAILS = Failures()
 
 def process(R, name, cases):
     """run one stream: real + reference for every case, the model in one batch"""
-    models = [dec_model(t) for t in R.model([enc_case(c) for c in cases])] if R.model_available else [None] * len(cases)
+    # the translated hub (entry 3) is run on every case; the hand-written model (entry 1) is proved to give the very same
+    # result with the same fuel (Property.gen_refines), so in the quick tier it is run on every third case only
+    enc1 = [enc_case(c) for c in cases]
+    gmodels = [None] * len(cases)
+    models = [None] * len(cases)
+    if R.model_available:
+        graw = model_raw(R, ['(3' + e[2:] for e in enc1])
+        gmodels = [dec_model(parse(t)) for t in graw]
+        idx = [i for i in range(len(cases)) if not R.quick() or i % 3 == 0]
+        for i, t in zip(idx, model_raw(R, [enc1[i] for i in idx])):
+            models[i] = gmodels[i] if t == graw[i] else dec_model(parse(t))
+            GEN_STATS['hand model also run'] += 1
+            if gmodels[i] != models[i] and not (gmodels[i][0] == 'bad' or models[i][0] == 'bad'):
+                R.fail('correspondence', case_json(cases[i], stream=name),
+                       {'why': 'translated hub and hand-written model differ although Property.gen_refines is proved: extraction / wire problem',
+                        'model': repr(models[i])[:400], 'translated': repr(gmodels[i])[:400]})
     stats = collections.Counter()
     reported = collections.Counter()
-    for case, model in zip(cases, models):
+    for case, model, gmodel, e1 in zip(cases, models, gmodels, enc1):
         ref = reference(case)
         if ref[0] == 'diverged':
             stats['divergent (skipped)'] += 1
             if model is not None and model[0] == 'ok':
                 stats['divergent for the reference guard but the model terminates'] += 1
-            R.count(('div', enc_case(case)), nontrivial=False, stream=name, outcome='divergent')
+            R.count(('div', e1), nontrivial=False, stream=name, outcome='divergent')
             continue
         real = run_real(case)
         ref = reference_for(case, real, ref)
         if ref[0] == 'diverged':
             stats['divergent under the tie order of the implementation (skipped)'] += 1
-            R.count(('div', enc_case(case)), nontrivial=False, stream=name, outcome='divergent')
+            R.count(('div', e1), nontrivial=False, stream=name, outcome='divergent')
             if model is not None and model[0] == 'ok':
                 R.fail('correspondence', case_json(case, stream=name),
                        {'why': 'the implementation recurses without bound where the model terminates (order among equal priorities differs)'})
             continue
         calls, feats = features(case, ref)
-        key = (enc_case(case), ''.join('k' if b[0] == 'B' else 'f' for h in [case['script']] + case['handlers'] for b in flat_broadcasts(h)))
+        key = (e1, ''.join('k' if b[0] == 'B' else 'f' for h in [case['script']] + case['handlers'] for b in flat_broadcasts(h)))
         R.count(key, nontrivial=calls > 0, stream=name, deliveries=min(calls, 12), handler_nesting=ref[3],
                 outcome='raised' if ref[1] else 'normal')
         for f in feats:
             R.hist['feature'][f] += 1
         stats['cases'] += 1
-        for kind, detail in judge(case, real, ref, model):
+        for kind, detail in judge(case, real, ref, model, gmodel):
             stats[kind] += 1
             klass = (kind, why_class(detail.get('why', '')))
             reported[klass] += 1
@@ -878,6 +939,7 @@ def stream_find_handlers(R):
     import functools
     n = R.pick(1000, 6000)
     lines, expect, keys = [], [], []
+    glines = []
     bad = 0
     for i in range(n):
         rng = R.subrng('fh', i)
@@ -913,6 +975,7 @@ def stream_find_handlers(R):
                 tb = [(l, [(cc,) + v for cc, v in d.items()]) for l, d in table.items()]
                 R.count(('fh', tuple(parents), repr(tb), c, ident), nontrivial=len(want) > 0, stream='find_handlers', recipients=len(want))
                 lines.append(enc((2, [(0, list(parents)), (0, [(l, [(0, list(e)) for e in ent]) for l, ent in tb]), ident, c])))
+                glines.append(enc((4, [(0, list(parents)), (0, [(l, [(0, list(e)) for e in ent]) for l, ent in tb]), ident, c])))
                 expect.append(impl)
                 keys.append({'stream': 'find_handlers', 'parents': list(parents), 'table': tb, 'message': [ident, c]})
                 # the property: the right (listener, handler) pairs, each once, priorities never increasing (ties: any order)
@@ -930,6 +993,17 @@ def stream_find_handlers(R):
                 bad += 1
                 if bad <= 3:
                     R.fail('correspondence', k, {'why': 'find_handlers: model and implementation differ', 'impl': impl, 'model': model})
+        bad = 0
+        for k, impl, t in zip(keys, expect, R.model(glines)):
+            GEN_STATS['find_handlers'] += 1
+            gm = None if is_err(t) else [tuple(x[0] for x in kids(e)) for e in kids(t)]
+            # (listener, handler script, the listener the stored handler object acts for)
+            if gm is None or [x[:2] for x in gm] != impl or any(x[0] != x[2] for x in gm):
+                bad += 1
+                GEN_STATS['disagreements'] += 1
+                if bad <= 3:
+                    R.fail('correspondence', k, {'why': 'translated hub (gen/Gen_hub.v): hub_find_handlers and Hub._find_handlers differ',
+                                                 'impl': impl, 'translated': gm if gm is not None else 'KeyError/ValueError'})
     R.stream('find_handlers', cases=len(lines), exhaustive=False,
              bound='%d random tables (<= 5 listeners, <= 9 (un)subscriptions, 7 priorities with ties, 4 filters) x every class x 2 identities' % n)
 
@@ -941,12 +1015,14 @@ def stream_divergent(R):
         for body in ([('B', 900, 1)], [('D', []), ('B', 900, 2)], [('I', 3, [('B', 900, 1)])]):
             cases.append({'parents': TREE, 'handlers': [[], body], 'script': [('S', 0, c, 1, 0, 10), ('B', 1, 2)]})
     models = [dec_model(t) for t in R.model([enc_case(c) for c in cases])] if R.model_available else []
-    for case, model in zip(cases, models):
+    gmodels = [dec_model(t) for t in R.model([enc_case(c, 3) for c in cases])] if R.model_available else []
+    for case, model, gmodel in zip(cases, models, gmodels):
         real = run_real(case)
         R.count(('divergent', enc_case(case)), nontrivial=True, stream='divergent', outcome='divergent')
-        if real[0] != 'diverged' or model[0] != 'diverged':
-            R.fail('correspondence', case_json(case, stream='divergent'), {'impl': real[0], 'model': model[0],
-                                                                             'why': 'expected unbounded recursion on both sides'})
+        GEN_STATS['cases'] += 1
+        if real[0] != 'diverged' or model[0] != 'diverged' or gmodel[0] != 'diverged':
+            R.fail('correspondence', case_json(case, stream='divergent'), {'impl': real[0], 'model': model[0], 'translated': gmodel[0],
+                                                                             'why': 'expected unbounded recursion on all sides'})
     R.stream('divergent', cases=len(cases), exhaustive=False, bound='handlers that re-broadcast a class they receive')
 
 
@@ -957,11 +1033,17 @@ def run(R):
               'divergent and skipped' % (REF_GUARD, REF_CALLS))
     R.exhaustive = True
     FAILS.by_class.clear()
+    GEN_STATS.clear()
     try:
         stream_divergent(R)
         stream_find_handlers(R)
         stream_exhaustive(R)
         stream_random(R)
+        R.stream('translated', cases=GEN_STATS['cases'] + GEN_STATS['find_handlers'], exhaustive=True, stats=dict(GEN_STATS),
+                 bound='every case of the streams divergent / exhaustive / random once more through run_case entry 3 (the extracted script '
+                       'interpreter calling the functions translated from hub.py by tools/gen/gen_hub.py: hub_broadcast, hub_delay_callbacks, '
+                       'hub_ignore_callbacks, hub_subscribe, hub_unsubscribe, hub_unsubscribe_all, hub_find_handlers and their loops) and every '
+                       'table of the stream find_handlers through entry 4 (hub_find_handlers alone); compared with the live Hub: status, log, final state')
     finally:
         FAILS.flush(R)
 
@@ -1002,7 +1084,8 @@ def replay(R, case):
     real = run_real(c)
     ref = reference_for(c, real)
     model = dec_model(R.model([enc_case(c)])[0]) if R.model_available else None
-    js = judge(c, real, ref, model)
-    return {'case': case_json(c), 'implementation': real, 'reference': ref, 'model': model,
+    gmodel = dec_model(R.model([enc_case(c, 3)])[0]) if R.model_available else None
+    js = judge(c, real, ref, model, gmodel)
+    return {'case': case_json(c), 'implementation': real, 'reference': ref, 'model': model, 'translated': gmodel,
             'findings': [{'kind': k, 'why': d.get('why')} for k, d in js],
             'violates': any(k == 'oracle' for k, _ in js)}
